@@ -16,6 +16,7 @@ type PoolCfg struct {
 	Cap, Buf            int // job queue: channel capacity, overflow maximum
 	Max, StandBy, Batch int
 	Jam                 time.Duration // workerJamDuration; 0: one hour (never reached within a run)
+	KeepQueue           bool          // SetIsJobQueueClosedWhenClose(false): Close leaves the job queue open
 	Via                 string        // "": individual setters; "settings": NewDefaultWorkerPool(q, &settings copied from a template pool); "set-settings": SetDefaultWorkerPoolSettings + SetJobQueue
 }
 
@@ -26,6 +27,9 @@ func (c PoolCfg) String() string {
 	}
 	if c.Via != "" {
 		s += "/via-" + c.Via
+	}
+	if c.KeepQueue {
+		s += "/queue-left-open"
 	}
 	return s
 }
@@ -58,6 +62,9 @@ func NewPool(c PoolCfg, panicHandler func(interface{})) *worker.DefaultWorkerPoo
 		p.SetWorkerSizeStandBy(0)
 		p.SetJobQueue(fpgo.NewBufferedChannelQueue[func()](c.Cap, c.Buf, 100)) // before first use
 		p.SetDefaultWorkerPoolSettings(st)
+	}
+	if c.KeepQueue {
+		p.SetIsJobQueueClosedWhenClose(false)
 	}
 	p.SetWorkerSizeStandBy(c.StandBy)
 	return p
